@@ -292,6 +292,8 @@ class Normalizer(ast.NodeTransformer):
             def _loop(it_):
                 if isinstance(it_, ast.Call) and isinstance(it_.func, ast.Name) and it_.func.id == "range" and len(it_.args) == 1 and isinstance(it_.args[0], ast.Constant) and it_.args[0].value == 0:
                     return [ast.copy_location(ast.Pass(), node)]
+                if isinstance(it_, (ast.List, ast.Tuple, ast.Set)) and not it_.elts or isinstance(it_, ast.Dict) and not it_.keys:
+                    return [ast.copy_location(ast.Pass(), node)]  # nothing to iterate
                 lp = ast.copy_location(ast.For(target=copy.deepcopy(node.target), iter=it_, body=copy.deepcopy(node.body), orelse=[]), node)
                 r = self._visit_For(lp)
                 return r if isinstance(r, list) else [r]
